@@ -157,10 +157,49 @@ def _rand_kw_vals(rng, fmt, f, n):
     return [G._seq(rng, 5) for _ in range(n)]
 
 
-def make_case(rng, fmt, nops, canonical=None):
+def _parts_lens(fmt, samples, tabs, size):
+    """two consecutive chunks taken from ONE reader of file 0: how many rows each holds (chunk boundaries are C01's subject;
+    asked from the implementation when the case is generated and stored in the case)"""
+    import bionumpy as bnp
+    gc = {"fmt": fmt, "eol": "\n", "samples": samples, "recs": [[{"raw": r["raw"]} for r in t] for t in tabs]}
+    d, paths = G._write_tables(gc)
+    try:
+        f = bnp.open(paths[0], buffer_type=G._buffer_type(fmt))
+        a = f.read_chunk(min_chunk_size=size)
+        b = f.read_chunk(min_chunk_size=size)
+        return [len(a), len(b)] if (len(a) and len(b)) else None
+    except Exception:
+        return None
+    finally:
+        shutil.rmtree(d, ignore_errors=True)
+
+
+def _reg_rows(c):
+    """the rows each register starts with"""
+    if c.get("parts"):
+        k0, k1 = c["parts"]["lens"]
+        return [c["tables"][0][:k0], c["tables"][0][k0:k0 + k1]]
+    return c["tables"]
+
+
+def make_case(rng, fmt, nops, canonical=None, parts=False):
     canonical = (rng.random() < 0.5) if canonical is None else canonical
     tabs, shape = make_tables(rng, fmt, canonical)
     lens = [len(t) for t in tabs]
+    pinfo = None
+    if parts and fmt != "bam":
+        # the two registers are two chunks handed out by the SAME reader (objects sharing a lazy class / reader state)
+        while len(tabs[0]) < 4:
+            tabs[0] = tabs[0] + make_tables(rng, fmt, canonical)[0][0]
+        if fmt in ("vcf", "vcfi"):
+            tabs[0] = [r for r in tabs[0] if r["raw"].count("\t") == tabs[0][0]["raw"].count("\t")] * 4
+        tabs[0] = tabs[0][:6]
+        k = rng.randrange(1, len(tabs[0]) - 1)
+        size = len("".join(r["raw"] for r in tabs[0][:k]).encode("latin-1"))
+        pl = _parts_lens(fmt, shape["samples"], tabs, size)
+        if pl:
+            pinfo = {"size": size, "lens": pl}
+            lens = list(pl)
     nF = len(KINDS[fmt])
     ops = []
     for _ in range(nops):
@@ -179,7 +218,8 @@ def make_case(rng, fmt, nops, canonical=None):
             if res is not None:
                 lens[d] = len(res)
         elif r < 0.5:
-            ops.append({"k": "row", "a": a, "i": rng.choice([0, -1, n - 1, n, -n, rng.randrange(-n - 1, n + 1) if n else 0])})
+            ops.append({"k": "row", "a": a, "i": rng.choice([0, -1, n - 1, n, -n, rng.randrange(-n - 1, n + 1) if n else 0]),
+                        "as": rng.choice(["int", "int", "i64", "i32", "intp"])})
         elif r < 0.65:
             b = rng.choice([0, 1])
             ops.append({"k": "cat", "a": a, "b": b})
@@ -198,8 +238,11 @@ def make_case(rng, fmt, nops, canonical=None):
         else:
             ops.append({"k": "write", "a": a})
     ops += [{"k": "tolist", "a": 0}, {"k": "write", "a": 0}, {"k": "tolist", "a": 1}]
-    return {"op": "run" if fmt in MODEL_FMTS else "impl", "fmt": fmt, "canonical": canonical, "samples": shape["samples"],
-            "tables": tabs, "ops": ops, "chunk": 0 if fmt == "bam" else rng.choice([0, 0, 0, 1, 30, 100])}
+    c = {"op": "run" if fmt in MODEL_FMTS else "impl", "fmt": fmt, "canonical": canonical, "samples": shape["samples"],
+         "tables": tabs, "ops": ops, "chunk": 0 if (fmt == "bam" or pinfo) else rng.choice([0, 0, 0, 1, 30, 100])}
+    if pinfo:
+        c["parts"] = pinfo
+    return c
 
 
 def cases(tier, rng):
@@ -233,6 +276,25 @@ def cases(tier, rng):
         m = per if fmt in MODEL_FMTS else per // 2
         for _ in range(m):
             yield make_case(rng, fmt, rng.randrange(1, L + 1))
+    # two chunks handed out by ONE reader are the two registers: whatever is done to one must not show in the other
+    for fmt in fmts:
+        if fmt == "bam":
+            continue
+        for _ in range(per // 8):
+            yield make_case(rng, fmt, rng.randrange(1, L + 1), parts=True)
+        for canonical in (True, False):
+            base = make_case(rng, fmt, 0, canonical, parts=True)
+            if not base.get("parts"):
+                continue
+            n0, n1 = base["parts"]["lens"]
+            rep = REPLACEABLE[fmt]
+            f = rep[min(1, len(rep) - 1)]
+            scen = [[{"k": "setattr", "a": 0, "f": f, "c": _rand_kw_vals(rng, fmt, f, n0)}, {"k": "tolist", "a": 1}, {"k": "write", "a": 1}],
+                    [{"k": "setattr", "a": 1, "f": f, "c": _rand_kw_vals(rng, fmt, f, n1)}, {"k": "get", "a": 0, "f": f}, {"k": "write", "a": 0}],
+                    [{"k": "get", "a": 0, "f": f}, {"k": "get", "a": 1, "f": f}, {"k": "cat", "a": 0, "b": 1}],
+                    [{"k": "tolist", "a": 0}, {"k": "setattr", "a": 0, "f": rep[0], "c": _rand_kw_vals(rng, fmt, rep[0], n0)}, {"k": "tolist", "a": 1}]]
+            for sc in scen:
+                yield dict(base, ops=sc + base["ops"])
     # exhaustive small scope: every program of length <= 2 (quick) / <= 3 (thorough) over a 14-operation alphabet
     yield from _exhaustive(rng, 3 if big else 2)
 
@@ -281,12 +343,12 @@ def nontrivial(c):
 def oracle(c):
     fmt = c["fmt"]
     nF = len(KINDS[fmt])
-    regs = [[[cell[1] for cell in r["cells"]] for r in t] for t in c["tables"]]
+    regs = [[[cell[1] for cell in r["cells"]] for r in t] for t in _reg_rows(c)]
     # what the LAZY table must write (C04): per row the original TEXT of every column that was never replaced in it or in an
     # operand it was concatenated with, the value's spelling otherwise (FASTQ/FASTA concatenations are eager: every column)
-    texts = [[[cell[0] for cell in r["cells"]] for r in t] for t in c["tables"]]
-    over = [set() for _ in c["tables"]]
-    raws = [[r["raw"] for r in t] for t in c["tables"]]
+    texts = [[[cell[0] for cell in r["cells"]] for r in t] for t in _reg_rows(c)]
+    over = [set() for _ in _reg_rows(c)]
+    raws = [[r["raw"] for r in t] for t in _reg_rows(c)]
     lazy_w, lazy_raw = {}, {}
     kline = fmt in ("fastq", "fasta2", "bam")
     if kline and c["chunk"]:
@@ -437,7 +499,10 @@ def _run_mode(c, lazy, paths, d):
     bt = G._buffer_type(fmt)
     kinds, names = KINDS[fmt], NAMES[fmt]
     regs = []
-    for i, p in enumerate(paths):
+    if c.get("parts"):
+        f = bnp.open(paths[0], buffer_type=bt, lazy=lazy)
+        regs = [f.read_chunk(min_chunk_size=c["parts"]["size"]), f.read_chunk(min_chunk_size=c["parts"]["size"])]
+    for i, p in enumerate(paths if not c.get("parts") else []):
         f = bnp.open(p, buffer_type=bt, lazy=lazy)
         if i == 0 and c["chunk"]:
             chunks = list(f.read_chunks(min_chunk_size=c["chunk"]))
@@ -458,7 +523,8 @@ def _run_mode(c, lazy, paths, d):
                 regs[o["d"]] = r
                 obs = {"num": len(r)}
             elif k == "row":
-                e = t[o["i"]]
+                conv = {"i64": np.int64, "i32": np.int32, "intp": np.intp}.get(o.get("as"), int)
+                e = t[conv(o["i"])]        # an index computed with NumPy is a NumPy scalar, not a Python int
                 obs = {"rows": [_row_obs(e, names, kinds)]}
             elif k == "cat":
                 r = np.concatenate([t, regs[o["b"]]])
@@ -606,7 +672,7 @@ def _chunk_parts(c):
 def model_request(c):
     if c["op"] != "run":
         return None
-    tables = [[{"raw": r["raw"], "cells": r["cells"]} for r in t] for t in c["tables"]]
+    tables = [[{"raw": r["raw"], "cells": r["cells"]} for r in t] for t in _reg_rows(c)]
     # iteration and todict materialise the data object exactly like tolist; str() builds its text from a fresh slice and leaves
     # the table unchanged (modelled by the state-neutral `len`; its text is compared lazy vs eager on the implementation only)
     remap = {"iter": "tolist", "todict": "tolist", "str": "len"}
